@@ -123,7 +123,10 @@ def _re_sub(it, pat, repl, s, *a, **k):
 
 import textwrap as _textwrap
 
+import decimal as _decimal
+
 PURE_STDLIB = {
+    'Decimal': lambda it, x: _decimal.Decimal(x), 'decimal.Decimal': lambda it, x: _decimal.Decimal(x),
     'textwrap.dedent': lambda it, s: _textwrap.dedent(s), 'textwrap.indent': lambda it, s, p: _textwrap.indent(s, p),
     're.sub': _re_sub, 're.match': lambda it, p, s, *a: re.match(p, s, *a), 're.fullmatch': lambda it, p, s, *a: re.fullmatch(p, s, *a),
     're.search': lambda it, p, s, *a: re.search(p, s, *a), 're.split': lambda it, p, s, *a: re.split(p, s, *a), 're.findall': lambda it, p, s, *a: re.findall(p, s, *a),
@@ -429,8 +432,10 @@ class Interp:
                 elif isinstance(op, ast.GtE): r = left >= right
                 elif isinstance(op, ast.Is): r = (left is right) or (isinstance(left, ClassRef) and left == right)
                 elif isinstance(op, ast.IsNot): r = not ((left is right) or (isinstance(left, ClassRef) and left == right))
-                elif isinstance(op, ast.In): r = left in right
-                elif isinstance(op, ast.NotIn): r = left not in right
+                elif isinstance(op, (ast.In, ast.NotIn)):
+                    if isinstance(right, Obj):
+                        raise AnalysisError(f'interpreter: membership test `{norm(e)}` on a stand-in')
+                    r = (left in right) if isinstance(op, ast.In) else (left not in right)
                 else:
                     raise AnalysisError(f'interpreter: operator in `{norm(e)}`')
                 if not r:
@@ -571,6 +576,13 @@ class Interp:
                 if len(args) > 2:
                     return args[2]
                 raise Raised('AttributeError', e)
+            if n in ('repr', 'abs', 'float', 'format', 'round', 'sum', 'ord', 'chr', 'reversed', 'frozenset') and not any(isinstance(a, Obj) for a in args):
+                try:
+                    r_ = {'repr': repr, 'abs': abs, 'float': float, 'format': format, 'round': round, 'sum': sum, 'ord': ord, 'chr': chr,
+                          'reversed': lambda x: list(reversed(x)), 'frozenset': frozenset}[n](*args, **kwargs)
+                except (TypeError, ValueError) as x:
+                    raise Raised(type(x).__name__, e)
+                return r_
             if n in ('list', 'tuple', 'set', 'sorted', 'dict', 'str', 'int', 'bool', 'any', 'all', 'enumerate', 'zip', 'range', 'max', 'min', 'id', 'map'):
                 if n == 'map':
                     f = args[0]
@@ -611,7 +623,8 @@ class Interp:
             o = Obj(f.name.split('.')[-1], **kwargs)
             o.attrs['_args'] = args
             return o
-        if isinstance(e.func, ast.Name):
+        if isinstance(e.func, ast.Name) and e.func.id[:1].isupper():
+            # constructor of a repository class: a stand-in with the keyword arguments as attributes
             self.trace.append((e.func.id, args, kwargs))
             o = Obj(e.func.id, **kwargs)
             o.attrs['_args'] = args
